@@ -560,6 +560,19 @@ def run(prog, rep):
 
     # ---------------------------------------------------------------- R13.5
     cells = detection_cells()
+    if getattr(rep, 'tier', 'quick') == 'thorough':
+        # longer texts (three and four characters) and every combination of the second/third character classes
+        third16 = {'ASCII': ['A', 'Z'], 'Latin-1': ['N', 'Z'], 'U+xx00': ['Z', 'N'], 'BMP': ['N', 'N']}
+        for n2, c2 in third16.items():
+            for n3, c3 in third16.items():
+                cells.append(('Utf16le', "'A' then %s then %s" % (n2, n3), ['A', 'Z'] + c2 + c3))
+                cells.append(('Utf16be', "'A' then %s then %s" % (n2, n3), ['Z', 'A'] + [c2[1], c2[0]] + [c3[1], c3[0]]))
+        for k in range(9, 14):
+            cells.append(('Utf8', "'A' + %d non-ASCII bytes" % k, ['A'] + ['N'] * k))
+            cells.append(('Utf8', "%d ASCII characters" % (k + 1), ['A'] * (k + 1)))
+        for tail in (['A', 'Z', 'Z', 'Z'], ['N', 'N', 'Z', 'Z'], ['N', 'N', 'A', 'Z']):
+            cells.append(('Utf32le', "'A' then two more characters", ['A', 'Z', 'Z', 'Z'] + tail + tail))
+            cells.append(('Utf32be', "'A' then two more characters", ['Z', 'Z', 'Z', 'A'] + list(reversed(tail)) + list(reversed(tail))))
     for enc, desc, cl in cells:
         res = detect(prog, det, cl, bt)
         site = '%s|no BOM|%s|%s' % (enc, desc, ''.join(str(c) for c in cl))
